@@ -97,6 +97,9 @@ def generate(rng, tier):
                 g.shuffle(it)
             vs = ([g.pick(tens)] if tens and g.chance(0.4) else
                   g.subset(avail, 0.2, 0.8, nonempty=True))
+            if g.chance(0.3):
+                # a tensor name next to (some of) its own components
+                vs = vs + g.subset(avail, 0.0, 0.4)
             ops.append({'op': 'read', 'it': it, 'vars': vs, 'rl': rl,
                         'restart': g.randrange(nres) if g.chance(0.2) else -1,
                         'skip_last': False, 'chk': True})
@@ -161,6 +164,8 @@ def generate(rng, tier):
                                                    ('after', 1)])}
     # a second simulation with the same NAME under another root, read in
     # between (same layout and values, other times)
+    # IOHDF5 single-precision 3D output (checkpoints stay double precision)
+    cfg['single_precision_3d'] = rng.child('single').chance(0.15)
     gt = rng.child('twin')
     if gt.chance(0.12):
         out = []
@@ -516,7 +521,9 @@ def _execute(run, plan):
                     continue
                 for n, iit in enumerate(exp_its):
                     r = chosen[iit]
-                    exp = sim.truth_array(ev, iit, rl, r)
+                    exp = sim.truth_array(
+                        ev, iit, rl, r,
+                        source='chk' if op.get('chk') else '3d')
                     nch = len(cfg['restarts'][r]['boxes'][rl])
                     kind, msg = iosim.diff_kind(col[n], exp, ev, iit, rl, r)
                     compared[0] += 1
